@@ -148,6 +148,13 @@ func (s *ManagedServer) dequeueSave(ctx context.Context) {
 		select {
 		case <-s.saveQueue:
 		case <-ctx.Done():
+			// Shutting down. A save may have been queued at the same time:
+			// do not drop it, the change has already been acknowledged.
+			select {
+			case <-s.saveQueue:
+				s.save()
+			default:
+			}
 			return
 		}
 
@@ -163,16 +170,21 @@ func (s *ManagedServer) dequeueSave(ctx context.Context) {
 		default:
 		}
 
-		// The save operation only reads cachedCredMap and writes cachedContent.
-		// It is without doubt that taking the read lock is enough for cachedCredMap.
-		// As for cachedContent, the only other place that reads and writes it is LoadFromFile,
-		// which takes the write lock. So it is safe to take just the read lock here.
-		s.mu.RLock()
-		if err := s.saveToFile(); err != nil {
-			s.logger.Error("Failed to save credentials", zap.Error(err))
-		}
-		s.mu.RUnlock()
+		s.save()
 	}
+}
+
+// save saves the credentials to the file and logs any error.
+func (s *ManagedServer) save() {
+	// The save operation only reads cachedCredMap and writes cachedContent.
+	// It is without doubt that taking the read lock is enough for cachedCredMap.
+	// As for cachedContent, the only other place that reads and writes it is LoadFromFile,
+	// which takes the write lock. So it is safe to take just the read lock here.
+	s.mu.RLock()
+	if err := s.saveToFile(); err != nil {
+		s.logger.Error("Failed to save credentials", zap.Error(err))
+	}
+	s.mu.RUnlock()
 }
 
 // Start starts the managed server.
